@@ -32,7 +32,7 @@ def parseIns (tok : String) : Option (TIns × Nat) :=
   let (body, rep) := match tok.splitOn "*" with
     | [b, r] => (b, r.toNat?.getD 1)
     | _ => (tok, 1)
-  let rep := min rep 100000
+  let rep := min rep 1000000
   match body.toList with
   | 'y' :: [] => some (.y, rep)
   | 't' :: rest =>
